@@ -771,6 +771,13 @@ func (r *Run) exec(ctx context.Context, idx int, st *Step) StepObs {
 		second := rp.A.Resend(ctx, rp.Lost.Req, false)
 		rp.Lost = nil
 		err = second.Apply()
+	case "Rf": // the lost request is not resent as it was: the client builds a fresh pack (the unacknowledged changes plus whatever was edited since), as client.Sync does after a failed sync
+		if rp.Lost == nil || !attached {
+			obs.Skipped = true
+			return obs
+		}
+		rp.Lost = nil
+		err = rp.A.Sync(ctx)
 	case "Sc": // the identical request sent three times at once (client-side timeout retries racing the original)
 		if !attached || rp.Inflight != nil || rp.Lost != nil || r.Stale[st.C] {
 			obs.Skipped = true
